@@ -1084,6 +1084,11 @@ func runSession(t *testing.T, cfg *sessCfg, job *sessJob, rng *mrand.Rand, sched
 							if m.Src != v && m.Dst != v {
 								return false
 							}
+						case "between": // both endpoints: ["a2", "b2"] matches a2->b2 and b2->a2
+							ends, _ := v.([]any)
+							if len(ends) != 2 || !((m.Src == ends[0] && m.Dst == ends[1]) || (m.Src == ends[1] && m.Dst == ends[0])) {
+								return false
+							}
 						case "kind":
 							if m.Kind != v {
 								return false
